@@ -212,6 +212,22 @@ func Load(repo, tier string) (*Ctx, error) {
 	return c, nil
 }
 
+// PartOf: package sub is pkg itself or a private part of it - a package below it, or an internal package of the module
+// (code moved out of pkg into a package only the module can import still belongs to pkg's mechanisms).
+func PartOf(sub, pkg *ssa.Package) bool {
+	if sub == nil || pkg == nil {
+		return false
+	}
+	if sub == pkg {
+		return true
+	}
+	sp, pp := sub.Pkg.Path(), pkg.Pkg.Path()
+	if !InScopePath(sp) {
+		return false
+	}
+	return strings.HasPrefix(sp, pp+"/") || strings.Contains(sp, "/internal/") || strings.HasSuffix(sp, "/internal")
+}
+
 // PkgOf returns the defining package of a function, looking through closures and generic instances.
 func PkgOf(f *ssa.Function) *ssa.Package {
 	for f != nil {
@@ -347,9 +363,38 @@ func (c *Ctx) Method(T types.Type, name string) *ssa.Function {
 
 // DeclaredMethod returns the method only if it is declared on the named type itself (not promoted).
 func (c *Ctx) DeclaredMethod(T *types.Named, name string) *ssa.Function {
+	return c.declaredMethod(T, name, 0)
+}
+
+func (c *Ctx) declaredMethod(T *types.Named, name string, depth int) *ssa.Function {
+	if T == nil {
+		return nil
+	}
 	for i := 0; i < T.NumMethods(); i++ {
 		if T.Method(i).Name() == name {
 			return c.Prog.FuncValue(T.Method(i))
+		}
+	}
+	// a part of T split off into an unexported struct of the same package that T embeds by value: its methods are
+	// T's own (calls of the promoted method compile to calls of this function)
+	st, ok := T.Underlying().(*types.Struct)
+	if !ok || depth > 1 {
+		return nil
+	}
+	for i := 0; i < st.NumFields(); i++ {
+		f := st.Field(i)
+		if !f.Embedded() {
+			continue
+		}
+		n, isNamed := f.Type().(*types.Named)
+		if !isNamed || n.Obj().Exported() || n.Obj().Pkg() != T.Obj().Pkg() {
+			continue
+		}
+		if _, isStruct := n.Underlying().(*types.Struct); !isStruct {
+			continue
+		}
+		if m := c.declaredMethod(n, name, depth+1); m != nil {
+			return m
 		}
 	}
 	return nil
